@@ -16,6 +16,7 @@ from __future__ import annotations
 import ast
 
 import frame_rules
+from flow import BaseClient, Flow
 from common import AnalysisError, Finding, norm
 
 EXPLANATION = ("transform algebra of the compound setters by frame typing, and structural coverage of the recursion over children in move/_rotate/"
@@ -131,7 +132,8 @@ def a3(repo, res):
         res.require(fn is not None, f"anchor vanished: BaseGeo.{prop} setter")
         loops = child_loops(fn)
         full = [lp for lp in loops if ast.unparse(lp.iter) in ("getattr(self, 'children', [])", "self.children", "self._children")]
-        cond = any(isinstance(x, (ast.If, ast.Break, ast.Continue)) for lp in full for x in ast.walk(lp) if x is not lp)
+        # every path through the loop body performs the child update (a branch that only selects how is fine; one that skips is not)
+        cond = any(not _body_always_updates(lp, prop) for lp in full)
         early = [x for x in ast.walk(fn) if isinstance(x, ast.Return) and full and x.lineno < full[0].lineno]
         cond = cond or bool(early)
         ok = bool(full) and not cond
@@ -139,6 +141,34 @@ def a3(repo, res):
         if not ok:
             res.add(Finding("A3", geo.mod.rel, f"BaseGeo.{prop} (setter)", fn, "the setter must update every child unconditionally (no early return before, no condition inside the children loop): "
                             "children also have to follow a change of the path LENGTH"))
+
+
+class _UpdClient(BaseClient):
+    def __init__(self, var, prop):
+        self.var, self.prop = var, prop
+
+    def call_may_raise(self, call):
+        return False
+
+    def transfer(self, s, S):
+        for n in ast.walk(s):
+            if self.prop == "position" and isinstance(n, ast.Assign) and any(
+                    isinstance(t, ast.Attribute) and t.attr == "position" and ast.unparse(t.value) == self.var for t in n.targets):
+                return frozenset()
+            if self.prop == "orientation" and isinstance(n, ast.Call) and isinstance(n.func, ast.Attribute) and n.func.attr in ("rotate", "_rotate") \
+                    and ast.unparse(n.func.value) == self.var:
+                return frozenset()
+        return S
+
+
+def _body_always_updates(loop, prop):
+    """must-pass-through: from the head of the children loop every path to the end of the body (or a continue / break) passes the
+    child's update"""
+    var = ast.unparse(loop.target)
+    S, exits = Flow(_UpdClient(var, prop)).block(loop.body, frozenset({"NOUPD"}))
+    if S:
+        return False
+    return not any(St for k, St, n in exits if k in ("continue", "break", "return"))
 
 
 def a4(repo, res):
